@@ -226,7 +226,13 @@ func c14Prepare(e *core.Env, root string, s *scen.Scenario) (*c14Case, error) {
 	if s.Features["argv_set"] == "1" {
 		c.Argv = s.Features["argv"]
 	}
-	if c.Argv != "" && !filepath.IsAbs(c.Argv) {
+	c.Argv = strings.Replace(c.Argv, "PKG", s.PkgRel, 1)
+	if strings.HasPrefix(c.Argv, "ABS/") {
+		c.Argv = filepath.Join(c.Dir, strings.TrimPrefix(c.Argv, "ABS/"))
+		c.InRel = path.Clean(s.PkgRel + "/" + filepath.Base(c.Argv))
+		ext := path.Ext(c.Argv)
+		c.OutPath = c.Argv[:len(c.Argv)-len(ext)] + ".gen" + ext
+	} else if c.Argv != "" && !filepath.IsAbs(c.Argv) {
 		c.InRel = path.Clean(s.PkgRel + "/" + c.Argv)
 		ext := path.Ext(c.Argv)
 		c.OutPath = filepath.Join(c.Dir, c.Argv[:len(c.Argv)-len(ext)]+".gen"+ext)
@@ -423,9 +429,18 @@ func RunC14(e *core.Env) int {
 	rep.Extra("inject_classes_generated", len(classes))
 	var suspects []*c14Case
 	sampled := map[string]bool{}
+	// debugging aid: VERIF_C14_DUMP=<file> lists every case with its outcome
+	var dump *os.File
+	if p := os.Getenv("VERIF_C14_DUMP"); p != "" {
+		dump, _ = os.Create(p)
+		defer dump.Close()
+	}
 	finish := func(c *c14Case) {
 		oc := judgeC14(rep, c)
 		s := c.S
+		if dump != nil {
+			fmt.Fprintf(dump, "%s\t%s\t%s\texit=%d\tcpu=%dms\t%s\n", s.ID, s.InjectClass, oc, c.Run.Exit, c.Run.CPU.Milliseconds(), core.Trunc(c14FirstDiag(c.Run.Stderr), 160))
+		}
 		rep.Histo("outcome", oc)
 		rep.Histo("group/outcome", s.Features["group"]+" -> "+oc)
 		if oc != "inconclusive" {
@@ -473,13 +488,21 @@ func RunC14(e *core.Env) int {
 			}
 			finish(c)
 		}
-		// suspects are re-run alone (sequentially) before the batch directory goes away
-		for _, c := range suspects {
-			rep.Count("cpu_suspects_rerun_alone", 1)
-			c14RerunAlone(e, c)
-			finish(c)
+		// suspects are re-run before the batch directory goes away: nothing else runs meanwhile and at
+		// most 4 of them at a time on >= 8 cores (each is a single-threaded CPU-bound process, and CPU
+		// time, not wall time, is what is measured)
+		if len(suspects) > 0 {
+			w := 1
+			if e.Workers >= 8 {
+				w = 4
+			}
+			rep.Count("cpu_suspects_rerun_alone", len(suspects))
+			core.ParallelN(w, len(suspects), func(i int) { c14RerunAlone(e, suspects[i]) })
+			for _, c := range suspects {
+				finish(c)
+			}
+			suspects = nil
 		}
-		suspects = nil
 		_ = os.RemoveAll(root)
 		_ = os.RemoveAll(filepath.Join(e.Work, "c14-nomodule", filepath.Base(root)))
 	}
